@@ -2,7 +2,7 @@
    granularity), Sched/SchNext.v (UpdateNextCheck over Q).  "For all interleavings" = for every list
    of actions [l] that the model can execute from the initial state ([sch_run ... l = Some s]):
    any number of checkables, any number of pool tasks, any order. *)
-From Icv Require Import Base.Tac Sched.SchModel Sched.SchProofs Sched.SchNext Sched.SchNextProofs.
+From Icv Require Import Base.Tac Sched.SchModel Sched.SchProofs Sched.SchNext Sched.SchNextProofs Sched.SchOracleProofs.
 From Coq Require Import QArith.
 Local Open Scope Z_scope.
 
@@ -87,6 +87,13 @@ Theorem C04_progress_partial : forall s c k,
           exists s2, sch_exec s1 SchASkip = Some s2 /\ sch_mem c (sch_idle s2) = true).
 Proof. exact sch_thm_progress. Qed.
 Print Assumptions C04_progress_partial.
+
+(* the executable oracle run over the implementation's start/end/snapshot events never fires on a
+   trace the model produces, whatever the interleaving *)
+Theorem C04_oracle_accepts_model : forall zone next max l,
+  0 <= max -> sch_oracle max (sch_trace (sch_init zone next max) l) = None.
+Proof. exact sch_oracle_accepts_model. Qed.
+Print Assumptions C04_oracle_accepts_model.
 
 (* non-vacuity: a concrete interleaving - activate and resume checkable 7, it becomes due, is picked,
    dispatched, its task starts; meanwhile it is paused and resumed (the "resume while pending" window),
